@@ -701,6 +701,8 @@ def check_layer_rule(repo: Repo, sx: SymExec, res: Result) -> None:
     # ---- the side flag of Rule: the attribute Rule.modules_that() sets to True
     mt = sx.run(public_method(repo, rule_cls, "modules_that"))
     flags = {e.data["attr"] for e in mt.of("setattr") if e.data["obj"] == SELF and e.data["value"] == ("const", True)}
+    if not flags:
+        flags = {e.data["attr"] for e in mt.of("setattr") if e.data["obj"] == SELF}  # whatever modules_that() marks the side with
     if len(flags) != 1:
         raise AnalysisError(f"{mt.fi.fq}: the flag that marks the subject side was not found ({sorted(flags)})")
     flag = flags.pop()
@@ -757,7 +759,9 @@ def check_are_named(repo: Repo, F: RuleFacts, res: Result, arch: Term, rule: Ter
         vocab = atoms_of(S) | atoms_of(L) | atoms_of(none) | atoms_of(arch_none)
         for c in subj:
             vocab |= atoms_of(enc.truth(c))
-        extra = sorted(a for a in atoms_of(raised) - vocab if satisfiable(raised, started))
+        subject = lambda a: a[:-2] if a.startswith("len(") and a[-2] == "=" else a  # noqa: E731
+        vocab = {subject(a) for a in vocab}
+        extra = sorted({subject(a) for a in atoms_of(raised)} - vocab)
         if extra and subj:
             res.undecide("C16.R2", key, f"the configuration errors of are_named depend on `{extra[0]}`, which is neither the side flag, the subject of the wrapped rule nor the kind of the argument (raised iff `{_show_f(raised)}`)", f"{m.relpath}:{m.node.lineno}")
             return
